@@ -68,6 +68,7 @@ mod verif_kani_resp_parser {
         if let Some(Ok((_, n))) = &full {
             assert!(0 < *n && *n <= N);
         }
+        kani::cover!(matches!(&full, Some(Ok(_)))); // some input of this length is a complete frame
         let mut k = 1;
         while k < N {
             let part = parse_scalar(&buf[..k]);
@@ -102,7 +103,7 @@ mod verif_kani_resp_parser {
     }
 
     // @harness: h_parser_scalars_n5
-    // @bound: all byte strings of length 1..=5 over the 18-symbol alphabet; scalar frame types (+ - : $) via the real parse_* fns; unwind 7
+    // @bound: all byte strings of length 1..=5 over the 18-symbol alphabet; scalar frame types (+ - : $) via the real parse_* fns; unwind 7; measured CBMC time ~75-85 s (machine under load)
     // @tier: quick
     // @complete: false
     // @props: C15
@@ -116,7 +117,7 @@ mod verif_kani_resp_parser {
         check_scalars::<5>();
     }
     // @harness: h_parser_scalars_n6
-    // @bound: all byte strings of length 1..=6 over the 18-symbol alphabet; scalar frame types (+ - : $) via the real parse_* fns; unwind 8
+    // @bound: all byte strings of length 1..=6 over the 18-symbol alphabet; scalar frame types (+ - : $) via the real parse_* fns; unwind 8; measured CBMC time ~115 s (machine under load)
     // @tier: thorough
     // @complete: false
     // @props: C15
@@ -130,7 +131,7 @@ mod verif_kani_resp_parser {
         check_scalars::<6>();
     }
     // @harness: h_parser_scalars_n8
-    // @bound: all byte strings of length 1..=8 over the 18-symbol alphabet; scalar frame types (+ - : $) via the real parse_* fns; unwind 10
+    // @bound: all byte strings of length 1..=8 over the 18-symbol alphabet; scalar frame types (+ - : $) via the real parse_* fns; unwind 10; measured CBMC time ~300 s (machine under load)
     // @tier: thorough
     // @complete: false
     // @props: C15
@@ -142,5 +143,19 @@ mod verif_kani_resp_parser {
     #[kani::stub(core::fmt::Formatter::pad, fmt_pad_stub)]
     fn h_parser_scalars_n8() {
         check_scalars::<8>();
+    }
+    // @harness: h_parser_scalars_n10
+    // @bound: all byte strings of length 1..=10 over the 18-symbol alphabet; scalar frame types (+ - : $) via the real parse_* fns; unwind 12; measured CBMC time ~845 s (close to the 900 s thorough limit) (machine under load)
+    // @tier: thorough
+    // @complete: false
+    // @props: C15
+    #[kani::proof]
+    #[kani::unwind(12)]
+    #[kani::stub(alloc::string::String::from_utf8_lossy, lossy_ascii_stub)]
+    #[kani::stub(alloc::fmt::format, fmt_format_stub)]
+    #[kani::stub(core::fmt::write, fmt_write_stub)]
+    #[kani::stub(core::fmt::Formatter::pad, fmt_pad_stub)]
+    fn h_parser_scalars_n10() {
+        check_scalars::<10>();
     }
 }
